@@ -165,7 +165,7 @@ func battery(c *TrieCase, st *trie.SlimTrie, qs []string) Ev {
 				tpan = fmt.Sprint(r)
 			}
 		}()
-		text = st.String()
+		watched(func() { text = st.String() })
 	}()
 	o["text"], o["textpan"] = hashHex([]byte(text)), tpan
 	sc := runScan(st, scanReq{API: "from", Start: "", Incl: true, WithValue: true, Stop: -1})
@@ -174,7 +174,9 @@ func battery(c *TrieCase, st *trie.SlimTrie, qs []string) Ev {
 	mh, ml := "", -1
 	func() {
 		defer func() { recover() }()
-		b, err := st.Marshal()
+		var b []byte
+		var err error
+		watched(func() { b, err = st.Marshal() })
 		if err == nil {
 			mh, ml = hashHex(b), len(b)
 		}
